@@ -5,7 +5,7 @@
  ->  harness/drivers/c13.py     (mode suggest) at every prefix state of seeded library proofs: search_method on the recorded goal/facts
                                 and on seeded other goals/facts; every suggestion applied on a copy with the parameters it fixes
                                 (open declared parameters are taken from the recorded step when it is the same suggestion)
- T  spec/C14_SuggestTrace.tla   NeverFailsOutright, GoalsAdvertised, SolvesLeavesNone, ClosedOnesAreProved, FactAppears, CopyIsolated
+ T  spec/C14_SuggestTrace.tla   NeverFailsOutright, GoalsAdvertised, SolvesLeavesNone, ClosedOnesAreProved, StepChecks, FactAppears, CopyIsolated
 """
 import copy
 import json
@@ -13,8 +13,8 @@ import random
 
 from harness.core import (model_check, read_events, require, run_driver, seed, selftest_trace, spec_mutant, validate_trace, work_dir)
 
-QUICK_THEORIES = ["logic", "set"]   # see harness/checks/c13.py
-MORE = ["nat", "function", "list", "int", "real", "expr", "hoare"]
+QUICK_THEORIES = ["logic", "set", "function"]   # see harness/checks/c13.py; function: the function-valued rewrite rules (beta-redexes after rewriting)
+MORE = ["nat", "list", "int", "real", "expr", "hoare"]
 
 
 def run(rep, tier):
@@ -37,7 +37,7 @@ def run(rep, tier):
                 ["GoalsAdvertised", "SolvesLeavesNone"], wd=wd, workers=4)
     theories = list(QUICK_THEORIES)
     if quick:
-        theories.append(rnd.choice(MORE[:5]))
+        theories.append(rnd.choice(MORE[:4]))
         n_per = 10
     else:
         theories += MORE
